@@ -41,6 +41,32 @@ def emit_next(R, contract=None, loops=None):
             "drops": ["std::forward_list running_jobs -> ghost list (count + rows)", "returned std::vector -> out parameter"]}
     return out, info
 
+def emit_complete(R):
+    """CandidateManager::complete: the counters, the status marks and the running-job list."""
+    text = X.strip_comments(X.read_source(HPP))
+    (p,) = X.cut(HPP, r'void\s+complete\s*\(\s*std::vector<double>\s+const\s*&\s*p\s*\)', text)
+    chdr = "void CandidateManager_complete(CandidateManager *self, const double *p, size_t p_size)"
+    b = p.body
+    b = X.r1_qualifiers(R, b)
+    b = R.sub("R5-size", r'\bp\.size\(\)', 'p_size', b)
+    b = R.sub("R5-iter-loop", r'for\s*\(\s*auto\s+ip\s*=\s*p\.begin\(\)\s*;\s*ip\s*!=\s*p\.end\(\)\s*;\s*std::advance\(\s*ip\s*,\s*num_dimensions\s*\)\s*\)', 'for (size_t ip = 0; ip != p_size; ip += num_dimensions)', b)
+    b = R.sub("R5-iter-deref", r'auto\s+i\s*=\s*find\(\s*&\*ip\s*\)\s*;', 'size_t i = CandidateManager_find(self, &p[ip]);', b)
+    # the helper lambda (iterator successor) belongs to the list walk below and goes with it
+    b = R.sub("R7-list-helper", r'auto\s+inext\s*=\s*\[\]\([^)]*\)\s*->\s*[\w:<>\s]+?\{\s*return\s*\+\+ib\s*;\s*\}\s*;', '', b)
+    b = R.sub("R12-list-erase", r'auto\s+ib\s*=\s*running_jobs\.before_begin\(\)\s*;\s*while\s*\(\s*(?:not|!)\s*match\(\s*(&p\[[^\]]*\])\s*,\s*inext\(ib\)->data\(\)\s*\)\s*\)\s*ib\+\+\s*;\s*running_jobs\.erase_after\(\s*ib\s*\)\s*;',
+              r'fl_erase_match(self, \1);', b)
+    b = _status_enum(R, b)
+    b = _members(R, b)
+    X.check_leftover(chdr + b, "CandidateManager::complete")
+    R.require({"R5-size": 1, "R5-iter-loop": 1, "R5-iter-deref": 1, "R7-list-helper": 1, "R12-list-erase": 1})
+    out = '#line %d "%s"\n' % (p.line, X.REPO + "/" + p.rel) + chdr + b + "\n"
+    info = {"functions": [{"name": "CandidateManager::complete", "file": p.rel, "line": p.line, "loops": X.count_loops(b)}],
+            "fidelity": X.fidelity(p.src_body, b, extra_vocab=MEMBERS + ["p", "size", "begin", "end", "advance", "ip", "auto", "find", "i", "done", "inext", "ib", "running_jobs", "before_begin", "match", "data", "erase_after", "not",
+                                                                        "std", "forward_list", "vector", "double", "iterator", "return", "while"], slack=40),
+            "rules_fired": {k: v for k, v in R.counts.items() if v},
+            "drops": ["std::forward_list running_jobs -> ghost list: the walk to the matching job and erase_after become one ghost call (the match itself is not checked here)"]}
+    return out, info
+
 def emit_find(R, contract=None, loops=None):
     text = X.strip_comments(X.read_source(HPP))
     outs = []
